@@ -6,6 +6,7 @@ use crate::elem::*;
 use crate::gen::RunSpec;
 use crate::mapw::MapWorld;
 use crate::tablew::TableWorld;
+use crate::setw::SetWorld;
 use crate::profiles;
 use crate::rng::{mix3, tag_of, Digest, Rng};
 use crate::scenario::{Config, Fault, Op, Scenario, Violation};
@@ -55,6 +56,10 @@ fn with_world<R>(name: &str, cfg: Config, f: impl FnOnce(&mut dyn World) -> R) -
         "Mpod" => go!(MapWorld::<PodKey, u32>::new(cfg)),
         "M208" => go!(MapWorld::<Key8, Big200>::new(cfg)),
         "M64a" => go!(MapWorld::<Key8, Align64>::new(cfg)),
+        "S1" => go!(SetWorld::<KeyU8>::new(cfg)),
+        "S2" => go!(SetWorld::<KeyU16>::new(cfg)),
+        "S8" => go!(SetWorld::<Key8>::new(cfg)),
+        "S24" => go!(SetWorld::<Key24>::new(cfg)),
         "T24" => go!(TableWorld::<Elem24>::new(cfg)),
         "Tzd" => go!(TableWorld::<ZstDrop>::new(cfg)),
         "Tzp" => go!(TableWorld::<ZstPod>::new(cfg)),
